@@ -42,10 +42,14 @@ AsFoundUsed(e) ==
    THEN {"C11.Rfc8888NeverUnbinds"} ELSE {})
   \cup (IF KnownFec /\ FecAfterClose(e) THEN {"C11.FlexFecEmitsAfterClose"} ELSE {})
 
+\* (corrected false alarm: besides the emission a loop has in flight, a PLI REQUEST may be queued when Unbind returns - every
+\* BindRemoteStream of a PLI stream puts one into the generator's channel of capacity 1 - and is written afterwards; found
+\* when the sampled sequence `bindm, bindm, unbindm` ran without a pause)
+Queued(t) == IF t = "pli" THEN 1 ELSE 0
 Accept(e) ==
   IF e.a = "pre" THEN TRUE
   ELSE IF e.a = "wire" THEN /\ (~e.closed \/ e.app \/ (KnownFec /\ FecAfterClose(e)))   \* P1 (application packets pass through)
-                            /\ \A s \in DOMAIN ub : \A t \in P4Types : Bump(e)[s][t] <= InFlight          \* P4
+                            /\ \A s \in DOMAIN ub : \A t \in P4Types : Bump(e)[s][t] <= InFlight + Queued(t)  \* P4
   ELSE IF e.a = "end" THEN ~e.aborted /\ e.leaked = 0                             \* P2
   ELSE ~e.blocked /\ e.panic = ""                                                 \* P3
 
